@@ -246,9 +246,21 @@ class VTKWriter:
     def _write_cell_fields(self, vtkFile):
         allFieldsAreEmpty = not self.cellFields
         if not allFieldsAreEmpty:
-            ncells = self.mesh.conns.shape[0]
+            # contact edges are written as extra cells: they get default values
+            nContactEdges = self.contactEdges.shape[0]
+            ncells = self.mesh.conns.shape[0] + nContactEdges
+            fieldsToWrite = {}
+            for field in self.cellFields:
+                fieldRecord = self.cellFields[field]
+                for edge in range(nContactEdges):
+                    uNew = np.vstack( (fieldRecord.data,
+                                       default_values(fieldRecord.fieldType, fieldRecord.dataType)) )
+                    fieldRecord = self.VTKFieldRecord(uNew,
+                                                      fieldRecord.fieldType,
+                                                      fieldRecord.dataType)
+                fieldsToWrite[field] = fieldRecord
             vtkFile.write('CELL_DATA {}\n'.format(ncells))
-            self._write_out_all_fields_in_dict(self.cellFields, vtkFile)
+            self._write_out_all_fields_in_dict(fieldsToWrite, vtkFile)
         
         
     def _write_out_all_fields_in_dict(self, fieldDict, vtkFile):
